@@ -35,8 +35,10 @@ RULE = ("cases come from random.Random(VERIF_SEED). samplers: dense and sparse t
         "/ max_iters incl. 0 and faked sizes up to 1e9 cells. solvers: SGD/Adam/Adagrad with scripted estimate "
         "streams built to make chosen epochs fail, max_fails 0..2, epoch_iters 0..3, max_iters 0..5, f_est_tol, "
         "finite / infinite lower bounds, 1..4 solves on one object with same and different problem sizes; real "
-        "estimates on seeded dense / sparse problems; L-BFGS-B through gcp_opt with the real and two stand-in "
-        "optimisers. A case is non-trivial when the implementation accepts it and the sample / run is non-empty "
+        "estimates on seeded dense / sparse problems; L-BFGS-B through gcp_opt and solve with the real and two "
+        "stand-in optimisers, default and explicit options (maxiter pgtol factr m maxls maxfun callback), 1..3 solves "
+        "on one object ordered big-small / small-big / big-small-big / small-big-small / same / same size other "
+        "shape / mixed, each compared with a new object and with the object's attributes before the solve. A case is non-trivial when the implementation accepts it and the sample / run is non-empty "
         "(at least one sample, at least one completed epoch); distinct = distinct case hash")
 ASSUMPTIONS = [
     "np.random.uniform(0,1,size) returns size numbers in [0,1) and np.random.choice(n,size) size integers below n "
@@ -1275,36 +1277,102 @@ def stub_backtrack(func, x0, fprime=None, approx_grad=False, bounds=None, **kw):
 SERVICES = {"real": None, "start": stub_start, "backtrack": stub_backtrack}
 
 
+def _user_cb(xk):  # a user callback handed to the LBFGSB constructor
+    return None
+
+
+OPT_KEYS = ("m", "factr", "pgtol", "epsilon", "iprint", "disp", "maxfun", "maxiter", "callback", "maxls")
+
+
+def lbfgsb_kwargs(opts):
+    """Constructor arguments from the JSON description of the options of a case."""
+    kw = {}
+    for k, v in opts.items():
+        if k == "callback":
+            kw[k] = _user_cb if v else None
+        elif k in ("factr", "pgtol"):
+            kw[k] = float(Fraction(v))
+        else:
+            kw[k] = v
+    return kw
+
+
+def kwargs_j(opt):
+    """The stored options of an LBFGSB object as exact JSON (callback: 1 = the user callback,
+    null = none, anything else by name)."""
+    out = {}
+    for k, v in opt._solver_kwargs.items():
+        if k == "callback":
+            out[k] = None if v is None else (1 if v is _user_cb else "callable:" + type(v).__qualname__)
+        else:
+            out[k] = None if v is None else jval(v)
+    return out
+
+
+BIG = [[5, 4, 3], [6, 5], [4, 4, 3], [7, 4]]
+SMALL = [[2, 2], [2, 3], [3, 2], [2, 2, 2]]
+
+
 class Lbfgsb(Family):
+    """LBFGSB.solve through gcp_opt and directly: not worse than the start, bounds, wrapper == model,
+    and reusability: 1..3 solves on ONE object over problems of equal and different total size
+    (big first, small first), with default and explicit options; every solve is compared with the
+    same solve on a freshly constructed object, and the object's attributes before and after."""
     name = "lbfgsb"
-    theorems = ("C13_lbfgsb_not_worse", "C13_lbfgsb_not_worse_model", "C13_lbfgsb_roundtrip")
+    theorems = ("C13_lbfgsb_not_worse", "C13_lbfgsb_not_worse_model", "C13_lbfgsb_roundtrip",
+                "C13_reusable_lbfgsb")
 
     def gen(self, rng, tier):
-        n = 30 if tier == "quick" else 250
+        n = 36 if tier == "quick" else 260
         out = []
         for _ in range(n):
-            base = {"shape": rng.sample([2, 3, 4, 5], rng.choice([2, 3])), "rank": rng.randint(1, 3), "sparse": False,
-                    "objective": rng.choice(["gaussian", "gaussian", "poisson", "rayleigh", "gamma", "custom", "poisson_log"]),
-                    "lb": rng.choice(["0", "1/4", "-1/2"]), "dseed": rng.randrange(10 ** 6)}
-            probs = [base]
-            for _k in range(rng.choice([0, 1, 1, 2])):
-                if rng.random() < 0.5:
-                    probs.append(dict(base, dseed=rng.randrange(10 ** 6)))
-                else:
-                    probs.append(dict(base, shape=rng.sample([2, 3, 4, 5], rng.choice([2, 3])), rank=rng.randint(1, 3),
-                                      dseed=rng.randrange(10 ** 6)))
-            out.append({"service": rng.choice(["real", "real", "start", "backtrack"]),
-                        "maxiter": rng.choice([1, 2, 5, 20]), "via": rng.choice(["gcp_opt", "solve"]),
-                        "problems": probs})
+            obj = rng.choice(["gaussian", "gaussian", "poisson", "rayleigh", "gamma", "custom", "poisson_log"])
+            lb = rng.choice(["0", "1/4", "-1/2"])
+
+            def prob(shape):
+                return {"shape": list(shape), "rank": rng.randint(1, 3), "sparse": False, "objective": obj, "lb": lb,
+                        "dseed": rng.randrange(10 ** 6)}
+            order = rng.choice(["big-small", "small-big", "big-small-big", "small-big-small", "same", "same-size",
+                                "single", "mixed"])
+            if order == "single":
+                probs = [prob(rng.choice(BIG + SMALL))]
+            elif order == "same":
+                p0 = prob(rng.choice(BIG + SMALL))
+                probs = [p0] + [dict(p0, dseed=rng.randrange(10 ** 6)) for _ in range(rng.randint(1, 2))]
+            elif order == "same-size":
+                sh = rng.choice(BIG + SMALL)
+                probs = [prob(sh), prob(list(reversed(sh)))]
+            elif order == "mixed":
+                probs = [prob(rng.choice(BIG + SMALL)) for _ in range(rng.randint(2, 3))]
+            else:
+                probs = [prob(rng.choice(BIG if w == "big" else SMALL)) for w in order.split("-")]
+            # options of the object: mostly the defaults (the size-dependent behaviour lives there)
+            opts = {}
+            r = rng.random()
+            if r < 0.45:
+                pass
+            elif r < 0.6:
+                opts["maxiter"] = rng.choice([1, 2, 5, 20, 200])
+            else:
+                for key, vals in (("maxiter", [3, 50, 1000]), ("pgtol", ["1/1000", "1/100000", "1/10"]),
+                                  ("factr", ["10000000", "10", "1000000000000"]), ("m", [3, 10]), ("maxls", [5, 20]),
+                                  ("maxfun", [50, 15000]), ("callback", [1])):
+                    if rng.random() < 0.35:
+                        opts[key] = rng.choice(vals)
+            out.append({"service": rng.choice(["real", "real", "real", "start", "backtrack"]), "opts": opts,
+                        "via": rng.choice(["gcp_opt", "solve"]), "order": order, "problems": probs})
         return out
 
     @staticmethod
     def run(case, shared):
         opt = None
         results = []
+        opts = case.get("opts")
+        if opts is None:  # cases written before the options were part of the case
+            opts = {"maxiter": case.get("maxiter", 20), "maxfun": 200}
         for p in case["problems"]:
             if opt is None or not shared:
-                opt = O.LBFGSB(maxiter=case["maxiter"], maxfun=200)
+                opt = O.LBFGSB(**lbfgsb_kwargs(opts))
             rec = {}
             real = O.fmin_l_bfgs_b
             svc = SERVICES[case["service"]] or real
@@ -1312,14 +1380,17 @@ class Lbfgsb(Family):
             def wrapped(func, x0, fprime=None, approx_grad=False, bounds=None, rec=rec, svc=svc, **kw):
                 rec["x0"] = np.array(x0, dtype=float).copy()
                 rec["bounds"] = list(bounds)
+                rec["kw"] = {k: (v if isinstance(v, (int, float)) else type(v).__qualname__) for k, v in kw.items()}
                 rec["f_start"] = float(func(np.array(x0, dtype=float).copy())[0])
                 x, f, d = svc(func, x0, fprime=fprime, approx_grad=approx_grad, bounds=bounds, **kw)
                 rec["x"] = np.array(x, dtype=float).copy()
                 rec["f"] = float(f)
+                rec["d"] = {k: int(d[k]) for k in ("nit", "funcalls", "warnflag") if k in d}
                 rec["f_at_x"] = float(func(np.array(x, dtype=float).copy())[0])
                 return x, f, d
 
             def f(opt=opt, p=p, rec=rec, wrapped=wrapped):
+                cfg_before, kw_before = snapshot(opt), kwargs_j(opt)
                 with quiet():
                     data, fh, gh, lb, init = real_problem(p)
                     start = init.copy()
@@ -1337,7 +1408,9 @@ class Lbfgsb(Family):
                         "res": {"weights": tolist(res.weights), "factors": [tolist(x) for x in res.factor_matrices]},
                         "x0": tolist(rec["x0"]), "x": tolist(rec["x"]), "svc_f_start": rec["f_start"], "svc_f": rec["f"],
                         "svc_f_at_x": rec["f_at_x"], "bounds": [[float(a), float(b)] for a, b in rec["bounds"]],
-                        "final_f": float(info["final_f"])}
+                        "final_f": float(info["final_f"]), "counts": rec["d"], "svc_kw": rec["kw"],
+                        "cfg_changed": config_change(cfg_before, snapshot(opt)),
+                        "kw_before": kw_before, "kw_after": kwargs_j(opt)}
             results.append(call(f))
         return results
 
@@ -1353,6 +1426,11 @@ class Lbfgsb(Family):
                     index.append((ci, k, "tovec"))
                     reqs.append({"op": "c13_update", "model": jval(o["start"]), "data": jval(o["x"])})
                     index.append((ci, k, "update"))
+                    kb = o["kw_before"]
+                    if all(kb.get(key) is None or isinstance(kb.get(key), (int, str)) for key in OPT_KEYS) and \
+                            not (isinstance(kb.get("callback"), str)) and set(kb) == set(OPT_KEYS):
+                        reqs.append({"op": "c13_lbfgsb_opts", "opts": kb})
+                        index.append((ci, k, "opts"))
         replies = drive(reqs)
         by = {}
         for key, rep in zip(index, replies):
@@ -1362,8 +1440,35 @@ class Lbfgsb(Family):
             out.append(self._judge(c, shared[ci], fresh[ci], {k[1:]: v for k, v in by.items() if k[0] == ci}))
         return out
 
+    @staticmethod
+    def _same_run(a, b):
+        """A solve on a used object against the same solve on a new object: model tensor to 1e-10,
+        objective values to 1e-12, iteration / evaluation counts and everything else exactly."""
+        if ("ok" in a) != ("ok" in b):
+            return "one raises, the other does not"
+        if "ok" not in a:
+            return ""
+        a, b = a["ok"], b["ok"]
+        for key in ("counts", "svc_kw", "bounds", "kw_after", "lb"):
+            if a[key] != b[key]:
+                return f"{key}: {a[key]} on the used object, {b[key]} on a new one"
+        for key in ("f_start", "f_res", "final_f", "svc_f"):
+            if not close(a[key], b[key], 1e-12):
+                return f"{key}: {a[key]} on the used object, {b[key]} on a new one"
+        for key in ("x0", "x"):
+            if len(a[key]) != len(b[key]) or not all(close(u, v, 1e-10) for u, v in zip(a[key], b[key])):
+                return f"{key} differs beyond 1e-10"
+        fa = [v for A in a["res"]["factors"] for row in A for v in row]
+        fb = [v for A in b["res"]["factors"] for row in A for v in row]
+        if len(fa) != len(fb) or not all(close(u, v, 1e-10) for u, v in zip(fa, fb)):
+            return "returned model differs beyond 1e-10"
+        return ""
+
     def _judge(self, c, shared, fresh, rep):
-        tags = [c["service"], c["via"], f"solves{len(c['problems'])}"] + sorted({p["objective"] for p in c["problems"]})
+        sizes = [gen.numel(p["shape"]) for p in c["problems"]]
+        tags = [c["service"], c["via"], f"solves{len(c['problems'])}", "order=" + c.get("order", "legacy"),
+                "opts=" + ("default" if not c.get("opts") else "+".join(sorted(c["opts"]))),
+                "sizes-differ" if len(set(sizes)) > 1 else "sizes-equal"] + sorted({p["objective"] for p in c["problems"]})
         for k, r in enumerate(shared):
             if "ok" not in r:
                 return Verdict("violation", f"solve #{k + 1} raised: {r.get('exc')}: {r.get('msg')}", r, None, None, tags)
@@ -1395,16 +1500,31 @@ class Lbfgsb(Family):
                                r, rep[(k, "update")], None, tags)
             if o["final_f"] != o["svc_f"]:
                 return Verdict("violation", "info['final_f'] is not the optimiser's value", r, None, None, tags)
+            # reusable: the object's configuration is what it was, in every attribute ...
+            if o["cfg_changed"]:
+                return Verdict("violation", f"solve #{k + 1} changed the configuration of the LBFGSB object it was issued "
+                               f"to: {o['cfg_changed']} (options before {o['kw_before']}, after {o['kw_after']})",
+                               r, None, None, tags + ["reuse"])
+            # ... equal to what the model leaves behind ...
+            if (k, "opts") in rep and not deep_eq(o["kw_after"], rep[(k, "opts")]):
+                return Verdict("violation", f"solve #{k + 1}: stored options after the solve differ from the model's",
+                               o["kw_after"], rep[(k, "opts")], None, tags + ["reuse"])
+            # ... and the solve is the solve a new object would have made
             fr = fresh[k] if k < len(fresh) else None
-            if fr is not None and strip_exc(fr) != strip_exc(r):
-                return Verdict("violation", f"solve #{k + 1} on a used LBFGSB object differs from a fresh object",
-                               r, fr, None, tags + ["reuse"])
+            if fr is not None:
+                what = self._same_run(r, fr)
+                if what:
+                    return Verdict("violation", f"solve #{k + 1} on a used LBFGSB object differs from the same solve on "
+                                   f"a new object: {what}", r, fr, None, tags + ["reuse"])
         return Verdict("ok", "", shared[-1] if shared else None, None, None, tags, True)
 
     def shrink(self, case):
         if len(case["problems"]) > 1:
             for i in range(len(case["problems"])):
                 yield {**case, "problems": case["problems"][:i] + case["problems"][i + 1:]}
+        if case.get("opts"):
+            for key in case["opts"]:
+                yield {**case, "opts": {k: v for k, v in case["opts"].items() if k != key}}
 
 
 def families():
